@@ -221,6 +221,7 @@ class Runner:
                     r = self.res[ins[2]]
                     if self.case.res[ins[2]][0] == 'resource': slots[ins[1]] = self.new(r.request())
                     else: slots[ins[1]] = self.new(r.request(priority=ins[3], preempt=bool(ins[4])))
+                    self.notes.append(('req', self.nlabel, ins[2], ins[3], env.now, bool(ins[4])))
                 elif op == 'release':
                     if ins[3] in slots: slots[ins[1]] = self.new(self.res[ins[2]].release(slots[ins[3]]))
                 elif op == 'cancel':
